@@ -676,6 +676,9 @@ func TestCheck(t *testing.T) {
 						defer rs.Close()
 					}
 					for seed := range jobs {
+						if run.Violations() > 0 {
+							continue // a violated round may leave goroutines parked and costs a watchdog period: stop here
+						}
 						var s kvs.Storage
 						if rs != nil {
 							rs.MR.FlushAll()
